@@ -236,7 +236,12 @@ pub fn worker(jobs: &Path, results: &Path) -> i32 {
         let (i2, o2) = (input.clone(), outp.clone());
         r.recovery_skip = tool_run(case.key_len, &outp, true, &mut cache, || pearl::tools::recovery_blob(&i2, &o2, 2, true));
         let (i2, o2) = (input.clone(), outp.clone());
-        r.recovery_v0 = tool_run(case.key_len, &outp, true, &mut cache, || pearl::tools::recovery_blob(&i2, &o2, 0, false));
+        // ... into an output path that already holds a longer file (a re-run of the tool into the
+        // same file): the result is the same as into a fresh path
+        r.recovery_v0 = tool_run(case.key_len, &outp, true, &mut cache, || {
+            std::fs::write(&o2, vec![0xabu8; damaged.len() + 4096 + 17])?;
+            pearl::tools::recovery_blob(&i2, &o2, 0, false)
+        });
         let (i2, o2) = (input.clone(), outp.clone());
         r.migrate = tool_run(case.key_len, &outp, false, &mut cache, || pearl::tools::migrate_blob(&i2, &o2, 0, 1));
         // move_and_recover works in place: run it on a copy
